@@ -298,3 +298,55 @@ def add_junk(rng, v, dims, mag=50.0):
                         M[a, bb] = rng.uniform(-mag, mag)
                 v[st:st + m * m, j] = vecF(M)
     return v[:, 0] if one else v
+
+
+def planted_sparse_lp(rng, qp=False, with_q=False):
+    """strictly feasible LP/QP with GENUINELY sparse data (structural zeros): G = [-I; a few rows with 2-3
+    nonzeros], A with 2-3 nonzeros per row, n in 5..12, so that sparse Cholesky orderings are non-trivial.
+    Optional diagonal rank-deficient P.  [G; A] has full column rank because of the identity block."""
+    n = rng.randint(5, 12)
+    p = rng.randint(0, min(4, n - 2))
+    extra = rng.randint(1, n // 2 + 1)
+    rows = [[-1.0 if j == i else 0.0 for j in range(n)] for i in range(n)]
+    for _ in range(extra):
+        r = [0.0] * n
+        for j in rng.sample(range(n), rng.randint(2, 3)):
+            r[j] = rng.gauss(0.0, 1.0)
+        rows.append(r)
+    rng.shuffle(rows)
+    for _ in range(30):
+        Ar = []
+        for i in range(p):
+            r = [0.0] * n
+            for j in rng.sample(range(n), rng.randint(2, 3)):
+                r[j] = rng.gauss(0.0, 1.0)
+            Ar.append(r)
+        A = np.array(Ar, dtype=float).reshape(p, n)
+        if p == 0 or np.linalg.svd(A, compute_uv=False)[-1] >= 0.2:
+            break
+    else:
+        A = np.zeros((0, n)); p = 0
+    G = np.array(rows, dtype=float)
+    d = Dims(G.shape[0])
+    xs = np.array([rng.uniform(-2, 2) for _ in range(n)])
+    ys = np.array([rng.uniform(-2, 2) for _ in range(p)])
+    ss = cone.random_interior(rng, d, 0.2, 2.0)
+    zs = cone.random_interior(rng, d, 0.2, 2.0)
+    h = G @ xs + ss
+    b = A @ xs
+    if qp:
+        dg = np.array([0.0 if (j % 2 and rng.random() < 0.8) else rng.uniform(0.5, 1.5) for j in range(n)])
+        P = np.diag(dg)
+        q = -P @ xs - G.T @ zs - A.T @ ys
+        pr = Prob(c=q, q=q, P=P, G=G, h=h, A=A, b=b, dims=d, kind="feasible")
+        pr.rankP = int(np.sum(dg > 0))
+        ppl = float(0.5 * xs @ P @ xs + q @ xs)
+        dpl = float(ppl + zs @ (G @ xs - h))
+    else:
+        c = -G.T @ zs - A.T @ ys
+        pr = Prob(c=c, G=G, h=h, A=A, b=b, dims=d, kind="feasible")
+        ppl = float(c @ xs); dpl = float(-h @ zs - b @ ys)
+    s1, s2, smax = conditioning(G, A, d)
+    pr.pl = {"x": xs, "s": ss, "y": ys, "z": zs, "p": ppl, "d": dpl, "margin_s": cone.margin(ss, d),
+             "margin_z": cone.margin(zs, d), "sv": [s1, s2, smax], "structurally-sparse": True}
+    return pr
